@@ -439,6 +439,18 @@ func c07Exhaustive() []c07Case {
 		return refmodel.Action{Kind: "SET", Path: p, RHS: e}
 	}
 	rem := func(p refmodel.Path) refmodel.Action { return refmodel.Action{Kind: "REMOVE", Path: p} }
+	// an attribute whose NAME contains a dot (reached through a #placeholder) next to the document path that is
+	// spelled the same: two different attributes, the paths do not overlap, both actions are applied
+	dotted := func(name, alias string) refmodel.Path { return refmodel.Path{{Name: name, Alias: alias}} }
+	member := func(parent, name, alias string) refmodel.Path { return refmodel.Path{{Name: parent}, {Name: name, Alias: alias}} }
+	sib(set(dotted("m.x", "#flat"), uv(":a")), set(pth("m", "x"), uv(":b")))
+	sib(set(pth("m", "x"), uv(":b")), set(dotted("m.x", "#flat"), uv(":a")))
+	sib(set(dotted("m.x", "#flat"), uv(":a")), rem(pth("m", "x")))
+	sib(set(pth("m"), uv(":c")), set(dotted("m.x", "#flat"), uv(":a")))
+	sib(set(pth("m", "k", "y"), uv(":a")), rem(member("m", "k.y", "#ky")))
+	sib(set(member("m", "k.y", "#ky"), uv(":a")), set(pth("m", "k", "z"), uv(":b")), rem(pth("m", "k", "y")))
+	sib(set(dotted("l[0]", "#elem"), uv(":a")), set(pth("l", 0), uv(":b")))
+	sib(rem(dotted("zn.cnt", "#flat")), set(pth("zn", "cnt"), uv(":b")), set(dotted("zn.tags", "#flat2"), uv(":a")))
 	sib(rem(pth("l", 0)), rem(pth("l", 2)))
 	sib(rem(pth("l", 1)), rem(pth("l", 3)), rem(pth("l", 0)))
 	sib(rem(pth("l", 3)), rem(pth("l", 7)))
